@@ -12,7 +12,7 @@ META = {
 def run(ctx):
     q = ctx.quick()
     plans = [
-        {"world": "focus_conc", "conc": True, "steps": 6 if q else 7},
+        {"world": "focus_conc", "conc": True, "steps": 6 if q else 7, "cap": None if q else 80000},
         {"world": "adversarial", "sim": 3 if q else 20, "steps": 7 if q else 9, "avoid": True, "cap": 280 if q else 4000, "seeds": 1 if q else 3},
         {"world": "replay", "sim": 3 if q else 20, "steps": 6 if q else 9, "avoid": True, "cap": 150 if q else 2000, "seeds": 1 if q else 2},
     ]
